@@ -770,6 +770,9 @@ func assign(n *node) {
 		switch typ := n.child[sbase+i].typ; {
 		case isInterfaceSrc(typ):
 			t = valueInterfaceType
+		case typ.cat == nilT:
+			// The nil value takes the type of its destination.
+			t = n.child[i].typ.frameType()
 		default:
 			t = typ.TypeOf()
 		}
